@@ -35,6 +35,7 @@ type Conn struct {
 	reads     int      // number of Read calls that returned data
 	failReadN int      // >0: the n-th data-returning Read fails instead (1-based)
 	failReadErr error  // the error it fails with (nil: a plain one)
+	shortTempAt, shortTempN int // >0: the Write call with this number takes shortTempN bytes and reports IntrError
 
 	// client -> server
 	writes     []WriteRec
@@ -174,6 +175,19 @@ func (c *Conn) Write(p []byte) (int, error) {
 		return n, err
 	}
 	c.nwrites++
+	if c.shortTempAt > 0 && c.nwrites == c.shortTempAt {
+		c.shortTempAt = 0
+		n := c.shortTempN
+		if n >= len(p) {
+			n = len(p) - 1 // (a write that took everything does not fail)
+		}
+		if n > 0 {
+			c.writes = append(c.writes, WriteRec{Data: string(p[:n]), At: time.Now()})
+			c.wbytes.WriteString(string(p[:n]))
+		}
+		c.mu.Unlock()
+		return n, &net.OpError{Op: "write", Net: "tcp", Err: IntrError{}}
+	}
 	if c.failWriteN > 0 && c.nwrites >= c.failWriteN {
 		c.failWriteN = 0
 		c.writeErr = errors.New("ircsim: injected write error")
@@ -353,6 +367,22 @@ func (c *Conn) FailReadAtWith(n int, err error) {
 func (c *Conn) FailWriteAt(n int) {
 	c.mu.Lock()
 	c.failWriteN = n
+	c.mu.Unlock()
+}
+
+// IntrError is an interrupted system call as a socket write reports it: a net.Error that is Temporary()
+// but not a Timeout(). Nothing is wrong with the connection.
+type IntrError struct{}
+
+func (IntrError) Error() string   { return "ircsim: interrupted system call" }
+func (IntrError) Timeout() bool   { return false }
+func (IntrError) Temporary() bool { return true }
+
+// ShortTempAt makes the k-th Write call from now (1-based) take only its first n bytes and report a
+// transient error; the connection stays usable and later Writes succeed.
+func (c *Conn) ShortTempAt(k, n int) {
+	c.mu.Lock()
+	c.shortTempAt, c.shortTempN = c.nwrites+k, n
 	c.mu.Unlock()
 }
 
